@@ -362,6 +362,17 @@ def run(prop, tier, seed):
             continue
         poly_ok += 1
         recs = geometry_records(c, g, rng, verts=c.verts)
+        if poly_ok <= 12:
+            # the curve is determined by the vertices given at construction: the caller's arrays may be reused afterwards
+            from src.parametrization import PiecewisePolygon
+            buf = np.array([[float(p[0]), float(p[1])] for p in w])
+            g2 = PiecewisePolygon([buf[i] for i in range(len(buf))], closed=True)       # rows are views of one buffer
+            xs = np.linspace(0.0, float(g2.gamma_length), 23)
+            before = np.array(g2.eval(xs), dtype=float, copy=True)
+            buf *= -3.0
+            buf += 11.0
+            after = np.asarray(g2.eval(xs), dtype=float)
+            recs.append({"cls": "vertices-copied-at-construction", "dev": 0 if np.array_equal(before, after) else 10 ** 9})
         for r in recs:
             r["curve"] = "polygon"
             r["walk"] = str(w)
